@@ -198,6 +198,21 @@ def plainL : List DNode → Bool
   | d :: ds => plain d && plainL ds
 end
 
+/-! ## no bookkeeping node escapes (C04): `_DefinitionListTerm` never remains in the tree -/
+
+mutual
+/-- no node of kind `term` anywhere in the tree (children and term lists) -/
+def T.clean : T → Bool
+  | .mk _ k term cs => k != .term && cleanL term && cleanL cs
+def cleanL : List T → Bool
+  | [] => true
+  | t :: ts => t.clean && cleanL ts
+end
+
+/-- nothing of kind `term` strictly below the node -/
+def T.cleanBelow : T → Bool
+  | .mk _ _ term cs => cleanL term && cleanL cs
+
 /-! ## paths of `Gen/VisitPaths.lean` -/
 
 def exitOfTag (s : String) : Option Exit :=
